@@ -26,7 +26,7 @@ fn cuts(rng: &mut Rng, len: usize) -> Vec<usize> {
     c
 }
 
-fn gen_requests(rng: &mut Rng, cid: &str, n: usize, big: bool) -> Vec<(bool, Step)> {
+pub fn gen_requests(rng: &mut Rng, cid: &str, n: usize, big: bool) -> Vec<(bool, Step)> {
     // (needs_block, step): steps flagged true are wrapped in BEGIN/COMMIT by the caller
     let mut out = vec![];
     for i in 0..n {
